@@ -39,6 +39,9 @@ func (rule Rule) OverrideOnRequest(r *http.Request) *http.Request {
 	if err != nil {
 		return r
 	}
+	// The destination is asked with the client's query (createOutgoingURLs), also when the rule's destination has
+	// no $1 to carry it: the query is part of what is requested, and so of what the request is known by.
+	u.RawQuery = r.URL.RawQuery
 	r.URL = u
 
 	return r
